@@ -35,6 +35,12 @@ def log(*a):
 def goenv():
     env = dict(os.environ)
     env["GOFLAGS"] = "-mod=mod"
+    try:   # on a heavily loaded machine do not add 16 more compile jobs per build
+        if os.getloadavg()[0] > 2 * NPROC:
+            env["GOFLAGS"] = "-mod=mod -p=3"
+            env.setdefault("GOMAXPROCS", "4")
+    except OSError:
+        pass
     env["GOPROXY"] = "off"
     env.pop("GOSUMDB", None)       # GOSUMDB=off breaks the cached toolchain module
     env.pop("GOTOOLCHAIN", None)   # go.mod demands go1.24.0 (module-cache toolchain)
